@@ -14,6 +14,9 @@ from ..permeance import Permeance, Units
 from ..process import ProcessModel
 from ..utils import R
 
+# upper bound on the fixed-point iterations of the permeate composition in calculate_partial_fluxes
+MAX_FLUX_ITERATIONS = 10000
+
 
 def get_permeate_composition_from_fluxes(
     fluxes: typing.Tuple[float, float],
@@ -124,7 +127,14 @@ class Pervaporation:
         permeate_composition = get_permeate_composition_from_fluxes(initial_fluxes)
 
         d = 1
+        iteration = 0
         while d >= precision:
+            iteration += 1
+            if iteration > MAX_FLUX_ITERATIONS:
+                raise ValueError(
+                    "Partial fluxes are not defined in the stated conditions range: "
+                    "permeate composition did not converge"
+                )
             try:
                 permeate_composition_new = get_permeate_composition_from_fluxes(
                     self.get_partial_fluxes_from_permeate_composition(
